@@ -25,6 +25,9 @@ import (
 type hitListener struct {
 	mu   sync.Mutex
 	echo bool
+	flood bool // write as fast as the gateway takes it
+	nwritten int64
+	nopen int
 	hits int
 	got  []byte
 	l    net.Listener
@@ -44,7 +47,23 @@ func listenBackend(ip string, port int) *hitListener {
 			}
 			h.mu.Lock()
 			h.hits++
+			h.nopen++
+			flood := h.flood
 			h.mu.Unlock()
+			if flood {
+				go func() {
+					blk := make([]byte, 32768)
+					for {
+						n, err := c.Write(blk)
+						h.mu.Lock()
+						h.nwritten += int64(n)
+						h.mu.Unlock()
+						if err != nil {
+							return
+						}
+					}
+				}()
+			}
 			go func() {
 				buf := make([]byte, 4096)
 				for {
@@ -58,6 +77,9 @@ func listenBackend(ip string, port int) *hitListener {
 					}
 					if err != nil {
 						c.Close()
+						h.mu.Lock()
+						h.nopen--
+						h.mu.Unlock()
 						return
 					}
 				}
@@ -66,6 +88,9 @@ func listenBackend(ip string, port int) *hitListener {
 	}()
 	return h
 }
+
+func (h *hitListener) written() int64 { h.mu.Lock(); defer h.mu.Unlock(); return h.nwritten }
+func (h *hitListener) open() int      { h.mu.Lock(); defer h.mu.Unlock(); return h.nopen }
 
 func (h *hitListener) setEcho(e bool) { h.mu.Lock(); h.echo = e; h.mu.Unlock() }
 func (h *hitListener) Hits() int      { h.mu.Lock(); defer h.mu.Unlock(); return h.hits }
